@@ -57,10 +57,26 @@ Judge(c) ==
          IN V(c, tc \o (IF bq # {} THEN <<"Closure">> ELSE <<>>) \o (IF dq # {} THEN <<"ClosureDuplicates">> ELSE <<>>),
               IF bq # {} THEN c.q[CHOOSE j \in bq : TRUE].n ELSE IF dq # {} THEN c.q[CHOOSE j \in dq : TRUE].n ELSE "")
 
+(* k = "cfdep": configure_file(depfile:) end to end.  The recorder wrote `lines` to the depfile meson asked for;   *)
+(* out = name of the configured file; names = every prerequisite name used in the file (absolute paths),          *)
+(* exist = those that exist as files; files = the build-definition files meson registered afterwards              *)
+(* (intro-buildsystem_files.json).  configure_file.yaml: "A change in any one of these files triggers a           *)
+(* reconfiguration": every existing file in the closure of `out` is registered, and no listed file that `out`     *)
+(* does not depend on.                                                                                            *)
+JudgeCfDep(c) ==
+    IF ~Specified(c.lines) THEN V(c, <<"Unspecified">>, "")
+    ELSE LET deps == AllDeps(Rules(c.lines), c.out)
+             files == SeqSet(c.files)
+             missing == {d \in deps \cap SeqSet(c.exist) : d \notin files}
+             spurious == {n \in SeqSet(c.names) \ deps : n \in files}
+         IN IF missing # {} THEN V(c, <<"CfDepMissing">>, CHOOSE d \in missing : TRUE)
+            ELSE IF spurious # {} THEN V(c, <<"CfDepSpurious">>, CHOOSE d \in spurious : TRUE)
+            ELSE V(c, <<>>, "")
+
 Init == i \in 1..Len(Cases) /\ done = FALSE
 Next == /\ ~done
         /\ done' = TRUE
         /\ i' = i
-        /\ LET v == Judge(Cases[i]) IN v.clause = "ok" \/ PrintT(ToJson(v))
+        /\ LET v == IF Cases[i].k = "cfdep" THEN JudgeCfDep(Cases[i]) ELSE Judge(Cases[i]) IN v.clause = "ok" \/ PrintT(ToJson(v))
 Spec == Init /\ [][Next]_vars
 =============================================================================
